@@ -106,14 +106,16 @@ theorem c06_replace_stream (sorted : List Repl) (inner : SResult) :
 
 /-- **the advance rule** ("advanced by the length of the preceding text of that segment where the recorded original content
 equals that text"): while the inner chunk `(chunk, m)` with original location `a` is processed and `check_original_content`
-succeeds wherever it is asked (`FM`: the recorded content, read from `a`, spells out the chunk), every delivered chunk — a piece
-of the inner text or replacement content spliced into it — reports `a`'s source index and original line and exactly the column
+succeeds wherever it is asked (`FM`: the recorded content, read from `a`, spells out the chunk), every delivered chunk — the piece
+`chunk[p..q)` of the inner text, or a line of the content of one of the pending replacements, spliced in at `p` — reports `a`'s source index and original line and exactly the column
 `a.col + p`, `p < |chunk|` being the byte offset in the inner chunk at which the piece was cut or the content spliced in.
 Together with `c06_replace_chunk` (no recorded content ⇒ no advance at all; never before `a.col`) this is the column rule. -/
 theorem c06_replace_advance (st : RSt) (chunk : Text) (hne : chunk ≠ []) (m : Mapping) (a : Orig) (hm : m.orig = some a) (hfm : FM st.contents a chunk) :
     ∀ t mm, Ev.chunk t mm ∈ (rOnChunk st chunk m).2 →
-      ∃ p, p < chunk.length ∧ ∃ y, mm.orig = some y ∧ y.src = a.src ∧ y.line = a.line ∧ y.col = a.col + p :=
-  rOnChunk_adv st chunk hne m a hm hfm
+      ∃ p, p < chunk.length ∧ (∃ y, mm.orig = some y ∧ y.src = a.src ∧ y.line = a.line ∧ y.col = a.col + p)
+        ∧ ((∃ q, p < q ∧ q ≤ chunk.length ∧ t = some (bsub chunk p q))
+           ∨ (∃ r ∈ st.rest, ∃ cl ∈ splitLines r.content, t = some cl)) :=
+  (rOnChunk_adv st.rest st chunk hne m a hm hfm (fun r hr => hr)).1
 
 /-- **C06, ReplaceSource, names**: a chunk a ReplaceSource delivers with a name carries — through the names the ReplaceSource itself
 announces — either the name the inner stream announced for the inner chunk it was cut from (or its replacement content was spliced
